@@ -99,7 +99,9 @@ def main():
                 continue        # the quantity's unit text does not parse (C13 / C15 finding classes); no unit was obtained
             if "err" in x:
                 c.violation(f"deserialize-raises:{how}", f"decoding {d['spec']} ({how}) in a fresh process raised {x['err']}", {"spec": d["spec"], "how": how}); continue
-            if not x["consistent"] or x["dim"] != d["dim"] or x["arith_dim"] != d["dim"] or not x["same_as_arithmetic"]:
+            if not x["consistent"] or x["dim"] != d["dim"] or x["arith_dim"] != d["dim"] or (how != "qjson" and not x["same_as_arithmetic"]):
+                # (a quantity's JSON carries the unit as text; "kg" reads back as the named unit kilogram, which is equivalent to but not the
+                #  object Kilo * Gram, so identity with the arithmetic result is only demanded of the structural codecs)
                 c.violation(f"deserialized-dimension:{how}", f"a unit decoded ({how}) before it was built by arithmetic reports dimension {x['dim']} (its factors give {d['dim']}); "
                                                               f"the same expression computed afterwards reports {x['arith_dim']}", {"spec": d["spec"], "how": how, "document": d.get(how if how != "qjson" else "qjson")})
         for bu in rr.get("inconsistent_units", []):
